@@ -1866,7 +1866,7 @@ class C19(Spec):
         subs = [c for c in plan["tree"]["children"] if c["k"] == "S"]
         if len(subs) >= 2 and r.random() < 0.6:
             common = plan["feed"]["tickers"][0]
-            for sub in subs[:2]:
+            for si, sub in enumerate(subs[:2]):
                 if not any(c["k"] == "S" for c in sub["children"]):
                     kid = [c for c in sub["children"] if c["k"] == "X" and c["name"] == common]
                     if not kid:
@@ -1875,7 +1875,10 @@ class C19(Spec):
                     kid[0].update(decl="lazy", mult=1.0, cls="Security")
                     kid[0].pop("fi_flag", None)
                     sub["how"] = "parent"
-                    sub["algos"] = [{"a": "Spy", "id": 900}, drive_engine.sched_spec(r, plan["feed"]["dates"]), {"a": "SelectAll"}, {"a": "WeighEqually"}, {"a": "Rebalance"}]
+                    # (the second one stays 40% in cash: two sub-strategies with the same definition over the same names have
+                    # indices that agree to the last bits, and a parent ranking them - SelectN, SelectMomentum - then picks by
+                    # rounding noise, which differs between the lazy and the eager twin; thorough tier, 2 runs in 80 000)
+                    sub["algos"] = [{"a": "Spy", "id": 900}, drive_engine.sched_spec(r, plan["feed"]["dates"]), {"a": "SelectAll"}, {"a": "WeighEqually"}] + ([{"a": "ScaleWeights", "args": [0.6]}] if si else []) + [{"a": "Rebalance"}]
             plan["tree"]["share_templates"] = True
             plan.setdefault("fired", {})["security_objects_reused_as_templates"] = 1
         # a third level: a sub-strategy is pushed one level down under a new middle strategy that keeps its name (so whatever the
